@@ -607,6 +607,8 @@ func (a *DerArtifact) ApplyDer(t *Node, op, arg string, rng *rand.Rand) error {
 	case "LenHuge":
 		t.LenMode = lenRaw
 		switch arg {
+		case "256m":
+			t.RawLen = []byte{0x84, 0x10, 0x00, 0x00, 0x00}
 		case "i32max":
 			t.RawLen = []byte{0x84, 0x7f, 0xff, 0xff, 0xff}
 		case "u32max":
